@@ -329,6 +329,8 @@ pub fn code(c: &Code) -> PR<SCode> {
 		out.line_numbers.push((l.get(lb, "line number")?, *line));
 	}
 	out.line_numbers.sort();
+	out.empty_line_table = c.line_numbers.as_ref().is_some_and(|t| t.is_empty());
+	out.empty_local_table = c.local_variables.as_ref().is_some_and(|t| t.is_empty());
 	for lv in c.local_variables.iter().flatten() {
 		let (s, e) = duke::verif::label_range_parts(&lv.range);
 		let (start, end) = (l.get(&s, "local variable start")?, l.get(&e, "local variable end")?);
